@@ -153,6 +153,8 @@ def parse_vspec(path):
             cur_fn["r4"] = True
         elif head == "r12":
             cur_fn["r12"] = True
+        elif head == "r15":
+            cur_fn.setdefault("r15", []).append(rest)
         elif head == "fnattr":
             cur_fn.setdefault("fnattrs", []).append(rest)
         elif head == "r9":
@@ -365,6 +367,25 @@ class UnitGen:
                 edits.append((inp["pat"][0], inp["pat"][1], f"_vx_arg{k}", "R10"))
                 self.rewrites.append({"rule": "R10", "what": f"wildcard parameter {k} of {qual} named _vx_arg{k}",
                                       "file": src.rel, "line": src.line_of(inp["pat"][0])})
+        # R15: by-value generic writer parameter `mut w: W` -> `w: &mut W` (callers pass `&mut place`; std forwards
+        # `impl Write for &mut W`), so that the effect on the underlying writer can be stated with old/final
+        for pname in fs.get("r15", []):
+            hit = False
+            for inp in sig["inputs"]:
+                if inp["receiver"]:
+                    continue
+                ptxt = src.text(*inp["pat"]).strip()
+                if ptxt in (pname, "mut " + pname):
+                    ty = src.text(*inp["ty"]).strip()
+                    if not re.fullmatch(r"[A-Z]\w*", ty):
+                        raise Undecided(f"fn {qual}: R15 refused (parameter {pname} has type {ty!r}, not a bare type parameter)")
+                    edits.append((inp["pat"][0], inp["pat"][1], pname, "R15"))
+                    edits.append((inp["ty"][0], inp["ty"][0], "&mut ", "R15"))
+                    self.rewrites.append({"rule": "R15", "what": f"parameter `{ptxt}: {ty}` -> `{pname}: &mut {ty}` in {qual}",
+                                          "file": src.rel, "line": src.line_of(inp["pat"][0])})
+                    hit = True
+            if not hit:
+                raise Undecided(f"fn {qual}: R15 parameter {pname} not found (lost anchor)")
         # R4: Pin<&mut Self> receiver of an Unpin type -> &mut self
         if fs.get("r4"):
             recv = [i for i in sig["inputs"] if i["receiver"]]
@@ -823,7 +844,7 @@ def analyse(gen_text, origins, res, gen):
             s = src_of(j)
             if s is None and j < len(origins):
                 f = origin_fn(origins[j])
-                if f and f != "lemmas":
+                if f:
                     return f
             j -= 1
         if s:
